@@ -702,6 +702,18 @@ func dropLocalPhis(b *ssa.BasicBlock, t Tokens) {
 	}
 }
 
+// FlattenOne strips negations from a condition (NOT x, positive -> x, negative).
+func FlattenOne(c Cond) Cond {
+	for d := 0; d < 6; d++ {
+		u, ok := c.V.(*ssa.UnOp)
+		if !ok || u.Op != token.NOT {
+			break
+		}
+		c = Cond{u.X, !c.Pos, c.If}
+	}
+	return c
+}
+
 // EdgeConds returns the conditions established by taking successor idx of b
 // (only the condition of b's own If, if any).
 func EdgeConds(b *ssa.BasicBlock, idx int) []Cond {
